@@ -230,18 +230,48 @@ func (w *World) loopHead(fr *Frame, st *State, h *ssa.BasicBlock, k int) {
 	cells, keys, all := w.loopWrites(fr, fr.loops.body[h])
 	if all {
 		keep := map[string]Term{}
+		framed := map[string]Term{}
 		written := map[string]bool{}
 		for _, k := range keys {
-			written[k] = true
+			// a key that the loop touches only by allocating fresh objects is not "written" for
+			// objects that existed at the loop head
+			if !(w.loopFreshAlloc[k] && !w.loopWhole[k] && len(w.loopTargets[k]) == 0 && !w.loopFreshOnly[k]) {
+				written[k] = true
+			}
 		}
-		for k := range w.loopPreserved {
-			if !written[k] {
+		consider := func(k string) {
+			if written[k] {
+				return
+			}
+			if w.loopFreshAlloc[k] {
+				framed[k] = w.hget(st, k)
+			} else {
 				keep[k] = w.hget(st, k)
 			}
 		}
+		for k := range w.loopPreserved {
+			consider(k)
+		}
+		if fr.top && fr.contract != nil && len(fr.contract.UnknownPreserve) > 0 {
+			env := w.contractEnv(fr, st, fr.entry)
+			for _, pe := range fr.contract.UnknownPreserve {
+				for _, k := range w.preservedKeys(env, pe) {
+					consider(k)
+				}
+			}
+		}
+		oaAll := w.hget(st, allocKey)
 		w.havocAll(st)
 		for k, v := range keep {
 			st.heap[k] = v
+		}
+		for k, prev := range framed {
+			idxSort, _, isArr := arrayParts(w.heapSort[k])
+			if !isArr || idxSort != SInt {
+				continue
+			}
+			nw := w.havocKey(st, k)
+			w.sc.assume(Term{fmt.Sprintf("(forall ((lf! Int)) (! (=> (<= lf! %s) (= (select %s lf!) (select %s lf!))) :pattern ((select %s lf!))))", oaAll.S, nw.S, prev.S, nw.S), SBool})
 		}
 	} else {
 		oa := w.hget(st, allocKey)
@@ -560,6 +590,7 @@ func (w *World) loopWrites(fr *Frame, blocks []*ssa.BasicBlock) (cells []cellID,
 	w.loopFreshOnly = map[string]bool{}
 	w.loopKeysExtra = nil
 	w.loopPreserved = nil
+	w.loopFreshAlloc = map[string]bool{}
 	addKey := func(k string) {
 		if !seenK[k] {
 			seenK[k] = true
@@ -577,6 +608,15 @@ func (w *World) loopWrites(fr *Frame, blocks []*ssa.BasicBlock) (cells []cellID,
 			w.loopWhole[k] = true
 			return
 		}
+		if a, ok := v.(*ssa.Alloc); ok && a.Heap {
+			for _, b := range blocks {
+				if a.Block() == b {
+					// an object allocated inside the loop: fresh at every iteration
+					w.loopFreshAlloc[k] = true
+					return
+				}
+			}
+		}
 		w.loopTargets[k] = append(w.loopTargets[k], loopTarget{v, viaSlice})
 	}
 	addFresh := func(k string) {
@@ -584,6 +624,7 @@ func (w *World) loopWrites(fr *Frame, blocks []*ssa.BasicBlock) (cells []cellID,
 			seenK[k] = true
 			keys = append(keys, k)
 		}
+		w.loopFreshAlloc[k] = true
 	}
 	var scan func(fn *ssa.Function, frameID int, blocks []*ssa.BasicBlock, depth int)
 	scan = func(fn *ssa.Function, frameID int, blocks []*ssa.BasicBlock, depth int) {
